@@ -155,7 +155,11 @@ func randExtra(r *Rng, n int) [][2]string {
 	for i := 0; i < n; i++ {
 		name := randCase(r, harmlessHeaders[1+r.Intn(len(harmlessHeaders)-1)])
 		vlen := []int{0, 1, 5, 22, 23, 24, 30, 255, 256}[r.Intn(9)]
-		out = append(out, [2]string{name, string(asciiBytes(r, vlen))})
+		v := asciiBytes(r, vlen)
+		if vlen > 0 && r.Chance(1, 6) { // the edges of the 7-bit range: DEL and control characters
+			v[r.Intn(vlen)] = []byte{0x7f, 0x7f, 0x00, 0x09, 0x1f, 0x7e}[r.Intn(6)]
+		}
+		out = append(out, [2]string{name, string(v)})
 	}
 	return out
 }
@@ -258,11 +262,23 @@ func statusTab() Sx {
 	return L(out...)
 }
 
+var verifyCount int
+
 func verifyCase(s signedEx, e *sxg.Exchange, tsec, tnsec int64, fetch Sx, xt Sx, st Sx) Case {
+	verifyCount++
+	if verifyCount%12 == 0 { // the verdict in memory and after Write / ReadExchange
+		return Case{"sxg_verdict_roundtrip", []Sx{exchangeInSx(e), Zi(tsec), Zi(tnsec), statusKnown(e.ResponseStatus), fetch, xt, st}}
+	}
 	return Case{"sxg_verify", []Sx{exchangeInSx(e), Zi(tsec), Zi(tnsec), statusKnown(e.ResponseStatus), fetch, xt, st}}
 }
 
+var readVerifyCount int
+
 func readVerifyCase(file []byte, tsec, tnsec int64, fetch Sx, xt Sx, st Sx) Case {
+	readVerifyCount++
+	if readVerifyCount%8 == 0 { // verify twice, then write the exchange out again
+		return Case{"sxg_read_verify_history", []Sx{B(file), Zi(tsec), Zi(tnsec), statusTab(), fetch, xt, st}}
+	}
 	return Case{"sxg_read_verify", []Sx{B(file), Zi(tsec), Zi(tnsec), statusTab(), fetch, xt, st}}
 }
 
@@ -387,6 +403,19 @@ func genC08(r *Rng, tier string) []Case {
 			}
 			cs = append(cs, Case{"sxg_history", []Sx{ex, L(acts...)}})
 		}
+		// MiEncodePayload on a response that already carries the digest field (empty value, or
+		// from an earlier call): it must refuse rather than produce an unverifiable exchange
+		if i%3 == 1 {
+			dn := "Digest"
+			if ver != version.Version1b3 {
+				dn = "MI-Draft2"
+			}
+			acts := []Sx{L(Sym("miencode"), Zi(16)), L(Sym("headers")), L(Sym("miencode"), Zi(16)), L(Sym("headers")), L(Sym("write"))}
+			if r.Bool() {
+				acts = append([]Sx{L(Sym("addresp"), B([]byte(dn)), B([]byte([]string{"", "x"}[r.Intn(2)])))}, acts...)
+			}
+			cs = append(cs, Case{"sxg_history", []Sx{ex, L(acts...)}})
+		}
 	}
 	return cs
 }
@@ -450,6 +479,32 @@ func genC02(r *Rng, tier string) []Case {
 		for _, t := range [][2]int64{{date, 0}, {(date + expires) / 2, 500}, {expires, 0}, {expires, 1}, {date - 1, 999999999}} {
 			cs = append(cs, verifyCase(s, e, t[0], t[1], ft, xt, st))
 			cs = append(cs, readVerifyCase(file, t[0], t[1], ft, xt, st))
+		}
+		// a b3 exchange carrying request headers in memory (the format has no place for them)
+		if ver == version.Version1b3 && i%2 == 0 {
+			c := cloneExchange(e)
+			c.RequestHeaders = http.Header{}
+			c.RequestHeaders.Set([]string{"Accept", "Authorization", "Cookie", "X-Trace"}[(i/6)%4], "Basic eDp5")
+			cs = append(cs, Case{"sxg_verdict_roundtrip", []Sx{exchangeInSx(c), Zi(date), Zi(0), statusKnown(c.ResponseStatus), ft, xt, st}})
+		}
+	}
+	// request URIs that ReadExchange refuses (Write must refuse them too) and odd-looking https URLs
+	for _, ver := range sxgVersions {
+		for _, uri := range []string{"http://example.com/", "/x", "", "x", "mailto:a@example.com", "ftp://example.com/f", "HTTPS://EXAMPLE.com/Up", "https:/x", "https:opaque",
+			"https://example.com/%zz", "https://example.com/a b", "https://example.com/\x7f", "://missing", "1https://example.com/", "https://example.com:8443/p?q#frag"} {
+			e := mkExchange(r, ver, exOpts{contentType: true, uri: uri, payloadLen: 3})
+			e.SignatureHeaderValue = "label;sig=*AA==*"
+			cs = append(cs, Case{"sxg_write", []Sx{exchangeInSx(e)}})
+			if f := writeFile(e); f != nil {
+				cs = append(cs, Case{"sxg_read", []Sx{B(f)}})
+			}
+		}
+		if ver == version.Version1b2 {
+			for _, k := range []string{":url", ":URL", ":Url", ":urls", "url"} {
+				e := mkExchange(r, ver, exOpts{contentType: true, payloadLen: 3, extraReq: [][2]string{{"raw:" + k, "https://evil.example/"}}})
+				e.SignatureHeaderValue = "label;sig=*AA==*"
+				cs = append(cs, Case{"sxg_write", []Sx{exchangeInSx(e)}})
+			}
 		}
 	}
 	// length-field boundaries and limits (no real signature needed)
